@@ -162,9 +162,7 @@ theorem attach_good (w : World) (k : Nat) : Good w (attach w k) := by
 theorem evInbound_good {w : World} {p : World × Option Err} (hE : evInbound w = some p) : Good w p.1 := by
   unfold evInbound at hE
   split at hE
-  · split at hE
-    · cases hE; exact addConn_good _ _ _
-    · cases hE
+  · cases hE; exact addConn_good _ _ _
   · cases hE
 
 theorem evConnected_good {w : World} {k : Nat} {p : World × Option Err} (hE : evConnected w k = some p) :
